@@ -39,10 +39,11 @@ const (
 	sTickM  // now = last receive + period - eps  (alive)
 	sTickP  // now = last receive + period + eps  (first tick after a full period)
 	sTickPP // now = last receive + 3*period
+	sTickPF // like tick+, but the ping cannot be sent (the write fails); KeepAlive object layer only
 	nSyms
 )
 
-var symNames = [...]string{"recv", "pong-current", "pong-stale", "tick-", "tick+", "tick++"}
+var symNames = [...]string{"recv", "pong-current", "pong-stale", "tick-", "tick+", "tick++", "tick+(ping-unsendable)"}
 
 func str(s []sym) string {
 	var b bytes.Buffer
@@ -116,27 +117,68 @@ func keepAliveObject(rec *vr.Rec, events []sym, retries int) {
 	c := kcase{"KeepAlive", retries, "-", str(events)}
 	var pings []*fakePing
 	closed := 0
+	failSend := false
+	attempts := 0
 	ka := inactivity.NewKeepAlive(uint32(retries), func(cc *fakeConn) { closed++ }, func(cc *fakeConn, receivePong func()) (func(), error) {
+		attempts++
+		if failSend {
+			return nil, fmt.Errorf("injected: ping cannot be written")
+		}
 		p := &fakePing{cb: receivePong}
 		pings = append(pings, p)
 		return func() { p.cancelled = true }, nil
 	})
 	fc := &fakeConn{}
 	u := 0 // consecutive unanswered pings since the last reset
+	curSent := false // the newest ping attempt reached the wire
 	for i, e := range events {
 		switch e {
 		case sPongC:
 			if len(pings) > 0 {
 				pings[len(pings)-1].cb()
-				u = 0
+				if curSent {
+					u = 0
+				} // else: the newest ping attempt was never sent; this answers an older ping and is not credited
 			}
 		case sPongS:
 			if len(pings) > 1 {
 				pings[len(pings)-2].cb() // late answer to a superseded ping: not credited
 			}
+		case sTickPF:
+			curSent = false
+			// a round in which the ping could not even be sent: nothing was answered either, so it is one more consecutive
+			// failing round (a peer that is silent stays "dead" whether or not our pings can be written)
+			na, nc := attempts, closed
+			failSend = true
+			ka.OnInactive(fc)
+			failSend = false
+			failing := u + 1
+			switch {
+			case failing <= retries:
+				if closed != nc {
+					rec.Violation("C18/KeepAlive/closed-too-early", fmt.Sprintf("event %d: closed at failing tick %d with %d retries", i, failing, retries), c)
+					return
+				}
+				if attempts != na+1 {
+					rec.Violation("C18/KeepAlive/no-ping-attempted", fmt.Sprintf("event %d", i), c)
+					return
+				}
+				u = failing
+			case failing == retries+1:
+				if closed == nc+1 {
+					return
+				}
+				u = failing
+			default:
+				if closed != nc+1 {
+					rec.Violation("C18/KeepAlive/not-closed", fmt.Sprintf("event %d: failing tick %d (some of them with an unsendable ping) with %d retries and still open", i, failing, retries), c)
+				}
+				return
+			}
 		case sTickP, sTickPP:
 			np, nc := len(pings), closed
 			ka.OnInactive(fc)
+			curSent = len(pings) == np+1
 			failing := u + 1
 			switch {
 			case failing <= retries:
@@ -462,7 +504,7 @@ func TestRun(t *testing.T) {
 	// ---- layer 1b
 	n2 := 0
 	for retries := 0; retries <= 3; retries++ {
-		enumerate([]sym{sPongC, sPongS, sTickP}, vr.Scale(7, 9), func(s []sym) {
+		enumerate([]sym{sPongC, sPongS, sTickP, sTickPF}, vr.Scale(7, 8), func(s []sym) {
 			keepAliveObject(rec, s, retries)
 			n2++
 		})
